@@ -554,8 +554,11 @@ func wgEvaluate(in wgInput, o wgOpts) *wgResult {
 			}
 		}
 		if libOK {
+			// "whenever the builder accepts a model": the oracle-free invariants of C04 (no empty weight map, no visible
+			// placeholder, edge weight = target weight + hop) hold for every accepted graph, also one that should not
+			// have been accepted; they are findings of their own, not subject to the known-finding explanation below
 			for _, d := range wgLocalInvariants(wg) {
-				specDiffs = append(specDiffs, label+": invariant: "+d)
+				add("weights", label+": invariant: "+d)
 			}
 			d := wgDump(wg)
 			if _, ok := dumps[d]; !ok {
